@@ -32,6 +32,9 @@ RULE_DOC = {
     'R6': '`if let P = E && C { B }` without else -> `if let P = E { if C { B } }` (definition of a let chain)',
     'R8': '`let v = M.values().filter(|p| C).map(|q| E).min();` -> `let mut v = None; for (_, p) in M.iter() { if C { v = opt_min(v, E) } }` (std: minimum of the filtered, mapped values; opt_min is a verified helper)',
     'R9': '`let v: Vec<T> = M.iter().filter(|(a, b)| BODY).map(|(i, _)| *i).collect();` -> `let mut v = Vec::new(); for (a, b) in M.iter() { if BODY { v.push(*a) } }` (std semantics of filter/map/collect; the closure body is copied verbatim)',
+    'R11': 'tail expression `E.iter().find(|v| C).map(|w| R)` -> `for i in 0..E.len() { let v = &E[i]; if C { return Some(R) } } None` (std: first element accepted by the predicate; closure bodies verbatim)',
+    'R12': 'tail expression `E.iter().any(|v| C)` -> `for i in 0..E.len() { let v = &E[i]; if C { return true } } false`',
+    'R13': '`for x in &mut E {` -> `for i in 0..E.len() { let x = &mut E[i];` (std: iter_mut visits the elements in index order)',
     'R10': 'a closure passed to Vec::retain gets a parameter type, a named bool result and braces (`|t| E` -> `|t: T| -> (r: bool) { E }`) so that requires/ensures can be attached; the body is verbatim',
     'R7': '`x op= e` / method sugar spelled out where Verus lacks the operator form (recorded per site)',
     'E1': 'foreign field/param types replaced by a declared stand-in with an assumed contract (FxHashMap/FxHashSet -> std HashMap/HashSet, opaque ArcStr/Term ...)',
@@ -249,6 +252,56 @@ class Piece:
         self.text = text[:m.start()] + new + text[end + 1:]
         self._fired('R9', 'filter/map/collect over map entries -> loop + push')
         return self
+
+    def _tail_chain(self, names_expected):
+        """the fn's tail expression must be `RECV .a(..) .b(..) ..` with the expected call names; returns (start, end, recv, calls)"""
+        text = self.text
+        code = scan(text)
+        m = re.search(r'\bfn\s+\w+', text)
+        bo, ch = body_open(text, code, m.end())
+        bc = match_close(text, code, bo)
+        ts = tail_start(text, code, bo, bc)
+        mm = re.match(r'([\w\.]+?)(?=\s*\.\w+\()', text[ts:])
+        if not mm:
+            raise LostAnchor('tail expression of %s is not a method chain' % self.label)
+        recv_end = ts + mm.end()
+        calls, end = self._chain(text, code, recv_end)
+        # the receiver regex is lazy: extend it over leading field accesses that were parsed as calls? no - calls only
+        names = [c[0] for c in calls]
+        if names != names_expected or text[end:bc].strip() != '':
+            raise LostAnchor('tail expression of %s is %s, expected %s' % (self.label, names, names_expected))
+        return ts, end, mm.group(1), calls
+
+    def R11(self):
+        """tail `E.iter().find(|v| C).map(|w| R)` -> `for i in 0..E.len() { let v = &E[i]; if C { let w = v; return Some(R); } } None`"""
+        ts, end, recv, calls = self._tail_chain(['iter', 'find', 'map'])
+        fm = re.match(r'\s*\|(\w+)\|\s*(.*)$', calls[1][1], re.S)
+        mm = re.match(r'\s*\|(\w+)\|\s*(.*)$', calls[2][1], re.S)
+        if not fm or not mm:
+            raise LostAnchor('rule R11 in %s: closure shape' % self.label)
+        ind = re.match(r'[ \t]*', self.text[_line_start(self.text, ts):]).group(0)
+        new = ('for i__ in 0..%s.len() {\n%s    let %s = &%s[i__];\n%s    if (%s) { let %s = %s; return Some(%s); }\n%s}\n%sNone'
+               % (recv, ind, fm.group(1), recv, ind, fm.group(2).strip(), mm.group(1), fm.group(1), mm.group(2).strip(), ind, ind))
+        self.text = self.text[:ts] + new + self.text[end:]
+        self._fired('R11', 'iter().find(..).map(..) tail -> index loop with early return')
+        return self
+
+    def R12(self):
+        """tail `E.iter().any(|v| C)` -> `for i in 0..E.len() { let v = &E[i]; if C { return true; } } false`"""
+        ts, end, recv, calls = self._tail_chain(['iter', 'any'])
+        fm = re.match(r'\s*\|(\w+)\|\s*(.*)$', calls[1][1], re.S)
+        if not fm:
+            raise LostAnchor('rule R12 in %s: closure shape' % self.label)
+        ind = re.match(r'[ \t]*', self.text[_line_start(self.text, ts):]).group(0)
+        new = ('for i__ in 0..%s.len() {\n%s    let %s = &%s[i__];\n%s    if (%s) { return true; }\n%s}\n%sfalse'
+               % (recv, ind, fm.group(1), recv, ind, fm.group(2).strip(), ind, ind))
+        self.text = self.text[:ts] + new + self.text[end:]
+        self._fired('R12', 'iter().any(..) tail -> index loop with early return')
+        return self
+
+    def R13(self):
+        """`for x in &mut E {` -> `for i in 0..E.len() { let x = &mut E[i];` (std: iter_mut visits the elements in index order)"""
+        return self.resub('R13', r'for (\w+) in &mut ([\w\.]+) \{', r'for i__ in 0..\2.len() { let \1 = &mut \2[i__];')
 
     def R10(self, method, param_ty, annotate):
         """`.method(|p| BODY)` -> `.method(|p: TY| -> (r: bool) <clauses(i)> { BODY })`: the closure gets a type annotation, a named
